@@ -1086,6 +1086,13 @@ func Generate(c Chooser, o GenOptions) *Program {
 			g.pool = append(g.pool, s.base)
 		}
 	}
+	// packages gogen itself may reference implicitly (big-number literals, conversions)
+	for _, n := range []string{"big", "strconv", "builtin"} {
+		if !seen[n] {
+			seen[n] = true
+			g.pool = append(g.pool, n)
+		}
+	}
 	sort.Strings(g.pool)
 
 	nfiles := 1 + c.Int(o.MaxFiles)
